@@ -515,7 +515,7 @@ def pipeline_check(ctx, menu, rule, nontrivial, rand_n=0, extra_gen=(), only=Non
     for cfg, inv in PIPELINE_DEMOS.get(menu, ()):
         vlib.tlc_expect_violation(ctx, "MC_Pipeline", cfg, inv)
     proved = 0
-    if menu == "C02" or (menu == "C07" and not ctx.quick()):
+    if menu == "C02" or (menu in ("C07", "C08") and not ctx.quick()):
         # unbounded: the sum / inputs / current-package invariants of Pipeline.tla itself, for any packages, generators, runs
         proved = vlib.tlaps_prove(ctx, "proofs/PipelineSumProof.tla", with_modules=("Pipeline.tla", "PipelineBase.tla"))
     gens = ["PipelineHist_%s_%s.cfg" % (menu, t)] + list(extra_gen)
